@@ -9,7 +9,8 @@ DPH nondet_DPH(void); struct rx_t nondet_rx(void); struct BusRequest nondet_req(
   g_active_open = nondet_bool(); g_echo_pending = nondet_bool(); g_sent_symbol = nondet_sym(); g_silent_timeout = 0; g_answer_mode = nondet_bool(); \
   h.m_currentRequest = nondet_bool() ? &r1 : NULL; g_q_head = nondet_bool() ? &r2 : NULL; g_q_second = nondet_bool() ? &r3 : NULL; \
   __CPROVER_assume(r3.life == RL_QUEUED && (h.m_currentRequest != NULL || r1.life != RL_CURRENT) && r2.life != RL_CURRENT && (g_q_head != NULL || r2.life != RL_QUEUED)); \
-  __CPROVER_assume(h.m_config.answer == g_answer_mode);
+  __CPROVER_assume(h.m_config.answer == g_answer_mode);\
+  __CPROVER_assume(!(h.m_config.readOnly && g_answer_mode));   /* CONFIGURATION EXCLUDED: answering combined with read-only mode (the handler then drops telegrams it would answer) */
 
 #define TS_OK(t) ((t).tv_sec >= 0 && (t).tv_sec < (1L << 33) && (t).tv_nsec >= 0 && (t).tv_nsec < 1000000000L)
 #define NO_LOST_REQUEST (((r1.life != RL_CURRENT) || h.m_currentRequest == &r1) && ((r2.life != RL_CURRENT) || h.m_currentRequest == &r2) && ((r3.life != RL_CURRENT) || h.m_currentRequest == &r3))
@@ -19,13 +20,13 @@ void h_recv_passive(void) {
   SETUP
   struct vtimespec sentTime = nondet_ts(); unsigned timeout = nondet_uint(); symbol_t sentSymbol = nondet_sym();
   __CPROVER_assume(TS_OK(sentTime));
-  __CPROVER_assume(inv(&h) && role_of(&h) == 0 && !g_active_open && rel_scalars(&h, 0, 0) && REL_BUFS(&h));
+  __CPROVER_assume(inv(&h, 0) && role_of(&h) == 0 && !g_active_open && rel_scalars(&h, 0, 0) && REL_BUFS(&h));
   __CPROVER_assume(!g_answer_mode);
   g_step_role = 0;
   result_t r = DPH_handleReceive(&h, timeout, 0, sentSymbol, &sentTime);
   if (g_last_arb == as_won && role_of(&h) != 1) g_active_open = 0;
   __CPROVER_assert(g_rx.emit == (g_reported == 1), "[C01] a complete valid telegram on the bus is reported (exactly when the recogniser accepts it)");
-  __CPROVER_assert(inv(&h), "[C01] handler invariant preserved by a passive receive step");
+  ASSERT_INV(&h, 1);
   __CPROVER_assert(rel_scalars(&h, 0, 0), "[C01] handler state follows the reference recogniser (phase, CRC, escape, repeat, CRC verdict, lengths)");
   __CPROVER_assert(REL_BUFS(&h), "[C01] collected master/slave bytes equal the unescaped bytes on the bus");
   __CPROVER_assert(NO_LOST_REQUEST, "[C04] no request is left in limbo by a receive step");
@@ -44,7 +45,7 @@ void h_recv_any(void) {
   SETUP
   struct vtimespec sentTime = nondet_ts(); unsigned timeout = nondet_uint(); symbol_t sentSymbol = nondet_sym(); _Bool sending = nondet_bool();
   __CPROVER_assume(TS_OK(sentTime));
-  __CPROVER_assume(inv(&h) && rel_scalars(&h, sending, sentSymbol) && REL_BUFS(&h));
+  __CPROVER_assume(inv(&h, 0) && rel_scalars(&h, sending, sentSymbol) && REL_BUFS(&h));
   __CPROVER_assume(sending == MUST_SEND(&h));     /* established by the preceding handleSend (see h_send_any) */
 #ifdef CASE_ROLE
   __CPROVER_assume(role_of(&h) == CASE_ROLE);
@@ -53,21 +54,32 @@ void h_recv_any(void) {
   result_t r = DPH_handleReceive(&h, timeout, sending, sentSymbol, &sentTime);
   if (g_last_arb == as_won && role_of(&h) != 1) g_active_open = 0;   /* the won arbitration was abandoned (request withdrawn meanwhile) */
   __CPROVER_assert(g_rx.emit == (g_reported == 1), "[C01,C02,C15] a complete valid telegram on the bus is reported exactly once (received, sent or answered)");
-  __CPROVER_assert(inv(&h), "[C01,C02] handler invariant preserved by a receive step");
+  ASSERT_INV(&h, 1);
   __CPROVER_assert(rel_scalars(&h, 0, 0), "[C01,C02,C15] handler state follows the reference recogniser and the entitlement monitor");
   __CPROVER_assert(REL_BUFS(&h), "[C01,C02,C15] collected / sent bytes equal the unescaped bytes on the bus");
   __CPROVER_assert(NO_LOST_REQUEST, "[C04] no request is left in limbo by a receive step");
+#if !defined(CASE_ROLE) || CASE_ROLE == 1
   if (g_step_role == 1 && role_of(&h) == 1) { CANARY("active step"); }
   if (g_step_role == 1 && g_rx.emit) { CANARY("own telegram completed"); }
+  if (g_step_role == 1 && g_notify_calls == 1 && g_last_notify_result != RESULT_OK) { CANARY("own request failed"); }
+#endif
+#if !defined(CASE_ROLE) || CASE_ROLE == 2
   if (g_step_role == 2 && g_rx.emit) { CANARY("answered telegram completed"); }
+  if (g_step_role == 2 && role_of(&h) == 2) { CANARY("answering step"); }
+#endif
+#if !defined(CASE_ROLE) || CASE_ROLE == 0
   if (g_step_role == 0 && role_of(&h) == 2) { CANARY("starts answering"); }
+  if (g_step_role == 0 && role_of(&h) == 1) { CANARY("arbitration won"); }
+  if (g_step_role == 0 && g_rx.emit) { CANARY("telegram received"); }
+  if (g_step_role == 0 && g_send_calls == 1) { CANARY("AUTO-SYN sent"); }
+#endif
 }
 
 /* C02/C03/C04: one call of handleSend */
 void h_send_any(void) {
   SETUP
   struct vtimespec sentTime; unsigned recvTimeout = nondet_uint(); symbol_t sentSymbol = nondet_sym(), sentSymbol0 = sentSymbol;
-  __CPROVER_assume(inv(&h) && rel_scalars(&h, 0, 0) && REL_BUFS(&h));
+  __CPROVER_assume(inv(&h, 1) && rel_scalars(&h, 0, 0) && REL_BUFS(&h));
 #ifdef CASE_ROLE
   __CPROVER_assume(role_of(&h) == CASE_ROLE);
 #endif
@@ -75,13 +87,19 @@ void h_send_any(void) {
   result_t r = DPH_handleSend(&h, &recvTimeout, &sentSymbol, &sentTime);
   __CPROVER_assert(g_send_calls <= 1, "[C03] at most one symbol is sent per step");
   __CPROVER_assert((r == RESULT_CONTINUE) == g_echo_pending, "[C02] handleSend reports a symbol in flight exactly when one was sent");
-  __CPROVER_assert(inv(&h), "[C02] handler invariant preserved by a send step");
+  ASSERT_INV(&h, 0);
   __CPROVER_assert((r == RESULT_CONTINUE) == MUST_SEND(&h), "[C02] after a send step a symbol is in flight exactly in the sending states");
   __CPROVER_assert(rel_scalars(&h, r == RESULT_CONTINUE, sentSymbol), "[C02,C03,C15] state after a send step is consistent with the monitors (symbol in flight, escape bookkeeping)");
   __CPROVER_assert(REL_BUFS(&h), "[C02] send step does not disturb the collected bytes");
   __CPROVER_assert(NO_LOST_REQUEST, "[C04] no request is left in limbo by a send step");
   __CPROVER_assert(g_reported == 0, "[C01] a send step reports no message");
-  if (r == RESULT_CONTINUE) { CANARY("symbol sent"); }
+#if !defined(CASE_ROLE) || CASE_ROLE == 1
+  if (g_step_role == 1 && r == RESULT_CONTINUE) { CANARY("request symbol sent"); }
+#endif
+#if !defined(CASE_ROLE) || CASE_ROLE == 0
   if (g_start_calls > 0 && g_start_master != 0xAA) { CANARY("arbitration requested"); }
+#endif
+#if !defined(CASE_ROLE) || CASE_ROLE == 2
   if (g_step_role == 2 && r == RESULT_CONTINUE) { CANARY("answer symbol sent"); }
+#endif
 }
